@@ -3,6 +3,7 @@ package props
 import (
 	"calcsa/engines/enc"
 	"calcsa/engines/lexfsm"
+	"calcsa/engines/txn"
 	"calcsa/engines/valtab"
 	"calcsa/engines/vmshape"
 )
@@ -13,6 +14,8 @@ func init() {
 
 	RegisterEngine(&Engine{Name: "enc", Run: enc.Run})
 	engineKinds["enc"] = "bit-field decomposition of the symbolically evaluated encoder / decoder functions; writer and reader compared field by field"
+	RegisterEngine(&Engine{Name: "txn", Run: txn.Run})
+	engineKinds["txn"] = "typestate of Snapshot/Rollback/Commit on every path of every combinator closure against an abstract input; symbolic effect of the TLexer primitives"
 	RegisterEngine(&Engine{Name: "valtab", Run: valtab.Run})
 	engineKinds["valtab"] = "operator table of package value by abstract interpretation of every operator method over kind pairs with symbolic payloads; compared with the documented algebra"
 	RegisterEngine(&Engine{Name: "vmshape", Run: vmshape.Run})
@@ -46,6 +49,20 @@ func init() {
 		Technique:  "symbolic evaluation of the encoder/decoder functions (abstract interpretation over go/ssa), bit-field decomposition of the results, writer/reader comparison",
 		Decides:    "decode(encode(x)) = x field by field for instructions and function values (as shift/mask algebra over the extracted fields), accepted operand range within the decodable range, opcode/flag packing, range checks before narrowing packs.",
 		NotDecided: "that a refused program is refused gracefully (today by panic: counted under C05); jump patching (compiler side, B-rules).",
+	})
+	RegisterSpec(&Spec{
+		ID: "C13", Title: "Backtracking is invisible: failed alternatives consume nothing",
+		Rules: []RuleRef{
+			{"txn", "X1", 13, "every Snapshot is matched by exactly one Rollback/Commit on every path; never popped without being taken"},
+			{"txn", "X2", 13, "when a failed sub-parser is swallowed (another alternative tried, or success returned) the input is back where it started"},
+			{"txn", "X3", 13, "input consumed by a sub-parser whose result is returned is not rolled back"},
+			{"txn", "X4", 2, "look-ahead combinators (Assert, Not) return with the input untouched on every path"},
+			{"txn", "X5", 3, "Snapshot pushes the read position, Rollback restores and pops it, Commit only pops"},
+			{"txn", "X6", 6, "after a rollback tokens, errors and spans are answered from the replay cache; Next caches exactly what the live lexer produced"},
+		},
+		Technique:  "typestate analysis by abstract interpretation of every combinator closure against an abstract transactional input (symbolic position, sub-parsers as unknown functions that fork into success/failure)",
+		Decides:    "on every path through every combinator (sub-parsers unknown, up to 7 sub-parser calls per path, variadic combinators with 1-3 arguments): snapshot balance, rollback of swallowed failures, retention of consumed input on success, non-consumption of look-ahead; the exact effect of the three TLexer primitives and of its accessors and Next on the symbolic lexer state.",
+		NotDecided: "the replay law of TLexer over arbitrary operation histories (an inductive invariant over readp/writep); equivalence with an ordered-choice recogniser on all token streams.",
 	})
 	RegisterSpec(&Spec{
 		ID: "C19", Title: "Runtime error reports point at the real failure",
